@@ -15,8 +15,36 @@ import (
 
 // ---- C03 main: goat server, generated handler outcomes ---------------------
 
-func genC03(t *rapid.T) ConvCase {
+// genC03Base is the generator shared with C06 and C15.
+func genC03Base(t *rapid.T) ConvCase {
 	return genConvCase(t, 4, allKinds, kit.GenOpts{MaxMsgs: 10, MaxPayload: 4096, OKBias: 25, WithMD: true}, []string{"direct", "direct", "demux", "proxy"})
+}
+
+// genC03 adds unusual but legal orders of the caller's API calls: the handler's status must reach the caller whatever
+// the caller does around it. (Not fed to the C06 wire monitor: whether a second CloseSend may put a second trailer on
+// the wire is not something property C06's programs cover.)
+func genC03(t *rapid.T) ConvCase {
+	c := genC03Base(t)
+	for i := range c.Convs {
+		cv := &c.Convs[i]
+		if cv.Kind == kit.KindUnary {
+			continue
+		}
+		switch rapid.SampledFrom([]string{"", "", "", "close-twice", "recv-after-end"}).Draw(t, "api_order") {
+		case "close-twice":
+			var ops []kit.COp
+			for _, op := range cv.COps {
+				ops = append(ops, op)
+				if op.Op == "close" {
+					ops = append(ops, kit.COp{Op: "close"})
+				}
+			}
+			cv.COps = ops
+		case "recv-after-end":
+			cv.COps = append(cv.COps, kit.COp{Op: "recv"}, kit.COp{Op: "recv"})
+		}
+	}
+	return c
 }
 
 func errNonTrivial(e kit.ErrSpec) bool {
@@ -56,6 +84,16 @@ func execC03(t *testing.T, c ConvCase) (v Verdict) {
 		}
 		if msg := oracleStatus(o.Name, cv.H.Ret, *o.C.RecvEnd, true); msg != "" {
 			v.failf("%s", msg)
+		}
+		// receives after the end report the same outcome again: never data, never a different status
+		for k, a := range o.C.RecvAfter {
+			if msg := oracleStatus(o.Name, cv.H.Ret, a, true); msg != "" {
+				v.failf("receive #%d after the end of the stream: %s", k+1, msg)
+			}
+			labels = append(labels, "api_order=recv-after-end")
+		}
+		if n := countCOps(cv.COps, "close"); n >= 2 {
+			labels = append(labels, "api_order=close-twice")
 		}
 		labels = append(labels, "stream.ret="+cv.H.Ret.Kind)
 		if cv.H.Ret.Build() != nil {
@@ -386,3 +424,13 @@ func execC03Race(t *testing.T, c C03Race) (v Verdict) {
 }
 
 func TestC03Race(t *testing.T) { checkProp(t, "C03", "race", genC03Race, execC03Race) }
+
+func countCOps(ops []kit.COp, name string) int {
+	n := 0
+	for _, o := range ops {
+		if o.Op == name {
+			n++
+		}
+	}
+	return n
+}
